@@ -993,11 +993,36 @@ def split_sbytes(s, sepbyte):
             parts[-1].append(seg)
         elif isinstance(seg, sb.SymByte):
             parts[-1].append(seg)   # caller must have decided it is not the separator
+        elif isinstance(seg, sb.CutSeg):
+            parts[-1].append(seg)   # caller went through split_with_cuts: no separator inside
         else:
             if isinstance(seg, sb.BlobSeg):
                 raise Inconclusive("split over opaque blob")
             parts[-1].append(seg)
     return [SBytes(p) for p in parts]
+
+
+def split_with_cuts(I, s, sepbyte):
+    """split_sbytes that also handles symbolic cuts of concrete bytes: forks (through the solver) on
+    how many separators fall inside the cut."""
+    if not s.has_kind(sb.CutSeg):
+        return split_sbytes(s, sepbyte)
+    segs = []
+    for seg in s.segs:
+        if not isinstance(seg, sb.CutSeg):
+            segs.append(seg)
+            continue
+        cur = seg.lo
+        hi = sb._bv(seg.hi)
+        data = seg.data
+        while True:
+            p = data.find(bytes([sepbyte]), cur)
+            if p < 0 or I.w.branch(z3.ULE(hi, z3.BitVecVal(p, 64)), "cut-before-sep"):
+                segs.append(sb.CutSeg(data, cur, seg.hi))
+                break
+            segs.append(data[cur:p + 1])
+            cur = p + 1
+    return split_sbytes(SBytes(segs), sepbyte)
 
 
 def decide_symbytes(I, s, specials):
@@ -1068,7 +1093,7 @@ def _str_split(I, a, d):
     if sep > 127:
         raise Inconclusive("split on non-ASCII char")
     s = decide_symbytes(I, s, [sep])
-    parts = [BytesRef(p, "str") for p in split_sbytes(s, sep)]
+    parts = [BytesRef(p, "str") for p in split_with_cuts(I, s, sep)]
     return RIter.from_list(parts)
 
 
